@@ -75,6 +75,17 @@ CHECKS['C03'] = dict(
    note='Trusted: Coq kernel + vm_compute; Model/Futures.v (hand-written); harness/c03.py + driver.py (inert strategy attached, mark prices set by the harness). '
         'Theorems are exact-arithmetic; the implementation is compared up to a relative 1e-9 with decisions exact on histories whose decision margins exceed 1e-6.',
    tech='Rocq proof: refinement to a reference margin account (permutation invariant over all histories) + model/implementation correspondence', ref='DESIGN.md section 6 (C03)')
+CHECKS['C10'] = dict(
+   text='Machine-checked theorems: (a) routing, over the is_price_near kernel REGENERATED from /repo each run - an entry/exit order has exactly the asked '
+        'quantity and price, is MARKET iff within 0.015 percent of the current price, otherwise entries are LIMIT at a better and STOP at a worse price, '
+        'exits are reduce-only on the closing side, LIMIT on the profit side and STOP on the loss side; (b) declarative exits - for EVERY sequence of '
+        'declarations (re-assigned or edited in place), engine passes, individual cancels/fills, opens and closes, the resting exit orders inject into the '
+        'rows of the latest declaration with equal quantity and price, and a closed position has none. The routing model is compared at binary64 with the '
+        'real Strategy/Broker on prices at, on and around the boundary (adjacent doubles included); the exits model with the real Strategy driven through the '
+        'same operations; monitors check every clause at every after() observation point of real backtests with scripted strategies.',
+   note='Trusted: Coq kernel + vm_compute; translator py2v (is_price_near); Model/Routing.v (hand-written); harness/c10.py, driver.py, engine.py. The '
+        'should_cancel_entry clause and market-routed exits are covered by the trace monitors only (search), not by a theorem.',
+   tech='Rocq proof (routing theorems over regenerated kernel; invariant over all op sequences) + correspondence + trace monitors', ref='DESIGN.md section 6 (C10)')
 NA = {}
 def main():
     props = [json.loads(l)['id'] for l in open(f'{V}/properties.jsonl')]
